@@ -34,7 +34,8 @@ zix_bump_malloc(ZixAllocator* const allocator, const size_t size)
      but sizeof(uintmax_t) is more than enough on all the common ones. */
 
   const size_t real_size = round_up_multiple(size, min_alignment);
-  if (state->top + real_size > state->capacity) {
+  if (real_size < size || state->top > state->capacity ||
+      real_size > state->capacity - state->top) {
     return NULL;
   }
 
@@ -49,6 +50,10 @@ zix_bump_calloc(ZixAllocator* const allocator,
                 const size_t        nmemb,
                 const size_t        size)
 {
+  if (size && nmemb > SIZE_MAX / size) {
+    return NULL;
+  }
+
   const size_t total_size = nmemb * size;
   void* const  ptr        = zix_bump_malloc(allocator, total_size);
   if (ptr) {
